@@ -516,6 +516,113 @@ fn op_bytes<M: VolatileMemory>(c: &M, st: &mut St, t: &mut Tape, cx: &mut Cx) ->
     Ok(())
 }
 
+/// Stream transfers into / out of the container (in-memory adapters and a real descriptor).
+fn op_stream<M: VolatileMemory>(c: &M, st: &mut St, t: &mut Tape, cx: &mut Cx) -> Result<(), String> {
+    use std::io::{Seek, SeekFrom};
+    use std::os::unix::fs::FileExt;
+    let size = st.model.len();
+    let vs = c.as_volatile_slice();
+    let off = t.idx(size + 1);
+    let rem = size - off;
+    let count = match t.below(4) {
+        0 => rem,
+        1 => rem + 1 + t.idx(3),
+        _ => t.idx(rem + 1),
+    };
+    let kind = t.below(3); // 0 slice/vec, 1 cursor, 2 file
+    classify_span(size, off, count, cx);
+    match t.below(4) {
+        0 | 1 => {
+            // read_volatile_from / read_exact_volatile_from
+            let exact = t.flag();
+            let srclen = match t.below(3) {
+                0 => count,
+                1 => count + 2,
+                _ => t.idx(count + 1),
+            };
+            let data = t.bytes(srclen);
+            note!(cx, "{}(@ {}, src kind {} len {}, count {})", if exact { "read_exact_volatile_from" } else { "read_volatile_from" }, off, kind, srclen, count);
+            let fits = count <= rem;
+            let (ok, moved): (bool, usize) = {
+                let mut run = |src: &mut dyn FnMut(bool) -> Result<usize, VmError>| -> (bool, usize) {
+                    match src(exact) {
+                        Ok(n) => (true, n),
+                        Err(_) => (false, 0),
+                    }
+                };
+                match kind {
+                    0 => {
+                        let mut s: &[u8] = &data;
+                        let r = run(&mut |ex| if ex { vs.read_exact_volatile_from(off, &mut s, count).map(|_| count) } else { vs.read_volatile_from(off, &mut s, count) });
+                        (r.0, data.len() - s.len())
+                    }
+                    1 => {
+                        let mut s = std::io::Cursor::new(&data[..]);
+                        let r = run(&mut |ex| if ex { vs.read_exact_volatile_from(off, &mut s, count).map(|_| count) } else { vs.read_volatile_from(off, &mut s, count) });
+                        (r.0, s.position() as usize)
+                    }
+                    _ => {
+                        let mut f = memfd(0);
+                        f.write_all_at(&data, 0).map_err(|e| e.to_string())?;
+                        let r = run(&mut |ex| if ex { vs.read_exact_volatile_from(off, &mut f, count).map(|_| count) } else { vs.read_volatile_from(off, &mut f, count) });
+                        (r.0, f.seek(SeekFrom::Current(0)).map_err(|e| e.to_string())? as usize)
+                    }
+                }
+            };
+            // expected number of bytes stored
+            let want = if exact {
+                if !fits { 0 } else if kind == 2 { count.min(srclen) } else if srclen >= count { count } else { 0 }
+            } else {
+                count.min(rem).min(srclen)
+            };
+            if exact {
+                ensure!(ok == (fits && srclen >= count), "read_exact_volatile_from(@ {}, count {}) on {} bytes with a source of {} returned ok={}", off, count, size, srclen, ok);
+            } else {
+                ensure!(ok, "read_volatile_from(@ {}, count {}) failed", off, count);
+            }
+            ensure!(moved == want, "stream read consumed {} source bytes, expected {} (count {}, room {}, source {})", moved, want, count, rem, srclen);
+            st.wr(off, &data[..want], 8);
+        }
+        _ => {
+            // write_volatile_to / write_all_volatile_to
+            let all = t.flag();
+            note!(cx, "{}(@ {}, sink kind {}, count {})", if all { "write_all_volatile_to" } else { "write_volatile_to" }, off, kind, count);
+            let fits = count <= rem;
+            let want = if all { if fits { count } else { 0 } } else { count.min(rem) };
+            let (ok, got): (bool, Vec<u8>) = match kind {
+                0 => {
+                    let mut v: Vec<u8> = Vec::new();
+                    let r = if all { vs.write_all_volatile_to(off, &mut v, count).map(|_| count) } else { vs.write_volatile_to(off, &mut v, count) };
+                    (r.is_ok(), v)
+                }
+                1 => {
+                    let mut store = vec![0u8; count + 4];
+                    let pos;
+                    let r;
+                    {
+                        let mut cur = std::io::Cursor::new(&mut store[..]);
+                        r = if all { vs.write_all_volatile_to(off, &mut cur, count).map(|_| count) } else { vs.write_volatile_to(off, &mut cur, count) };
+                        pos = cur.position() as usize;
+                    }
+                    store.truncate(pos);
+                    (r.is_ok(), store)
+                }
+                _ => {
+                    let mut f = memfd(0);
+                    let r = if all { vs.write_all_volatile_to(off, &mut f, count).map(|_| count) } else { vs.write_volatile_to(off, &mut f, count) };
+                    (r.is_ok(), pread_all(&f, 0, count + 8))
+                }
+            };
+            ensure!(ok == (!all || fits), "stream write (all={}) @ {} count {} on {} bytes returned ok={}", all, off, count, size, ok);
+            ensure!(got[..] == st.model[off..off + want], "stream write delivered {} ({} bytes), the model has {} ({} bytes)", hexs(&got), got.len(), hexs(&st.model[off..off + want]), want);
+            if want > 0 {
+                st.rd_mark(off, want, 8, cx);
+            }
+        }
+    }
+    Ok(())
+}
+
 fn op_slice_to_slice<M: VolatileMemory>(c: &M, st: &mut St, t: &mut Tape, cx: &mut Cx) -> Result<(), String> {
     let size = st.model.len();
     let soff = t.idx(size + 1);
@@ -552,7 +659,8 @@ pub fn history_raw<M: VolatileMemory>(c: &M, raw: &dyn Raw, size: usize, check_f
         if t.exhausted() && i > 0 {
             break;
         }
-        match t.below(10) {
+        match t.below(11) {
+            10 => op_stream(c, &mut st, t, cx)?,
             0..=3 => op_bytes(c, &mut st, t, cx)?,
             4 | 5 => {
                 let sel = t.idx(NPOD);
